@@ -56,6 +56,10 @@ for idx in order:
         elif kind == "cache":
             from suit_generator.cmd_cache_create import main as m
             m(cache_create_subcommand="from_payloads", eb_size=op["eb"], input=op["inputs"], output_file=os.path.join(od, "cache.bin"))
+        elif kind == "cache_env":
+            from suit_generator.cmd_cache_create import main as m
+            m(cache_create_subcommand="from_envelope", eb_size=op["eb"], input_envelope=op["input"], output_file=os.path.join(od, "cache.bin"),
+              output_envelope=os.path.join(od, "stripped.suit"), omit_payload_regex=op.get("omit"), dependency_regex=op.get("dep"))
         elif kind == "boot":
             from suit_generator.cmd_image import ImageCreator
             ImageCreator.create_files_for_boot(input_files=op["inputs"], storage_output_directory=od,
@@ -135,6 +139,17 @@ def build_ops(ck, tmp, n):
             with open(pj, "w") as fh:
                 json.dump(desc, fh)
             ops.append({"kind": "create", "input": pj, "twin": len(ops), "designed": j})
+    # payload extraction into a cache: several payloads and a dependency that itself carries payloads (order matters)
+    import cbor2 as _c
+    inner = _c.dumps(_c.CBORTag(107, {2: b"\x81\x40", 3: b"\xa0", "#z_in": b"\x01" * 5, "#a_in": b"\x02" * 7, "#m_in": b"\x03" * 9}))
+    outer = _c.dumps(_c.CBORTag(107, {2: b"\x81\x40", 3: b"\xa0", "#zeta": b"\x04" * 20, "dep_a": inner, "#alpha": b"\x05" * 3,
+                                       "#mid": b"\x06" * 11, "#beta": b"\x07" * 2, "#omega": b"\x08" * 33}))
+    pe = os.path.join(tmp, "with_payloads.suit")
+    with open(pe, "wb") as fh:
+        fh.write(outer)
+    ops.append({"kind": "cache_env", "input": pe, "eb": 16, "dep": "dep_.*", "omit": None})
+    ops.append({"kind": "cache_env", "input": pe, "eb": 8, "dep": None, "omit": "#m.*"})
+    ops.append({"kind": "cache_env", "input": pe, "eb": 16, "dep": "nothing", "omit": "nothing"})
     # a storage image from a root envelope with the default class
     root = {"SUIT_Envelope_Tagged": {
         "suit-authentication-wrapper": {"SuitDigest": {"suit-digest-algorithm-id": "cose-alg-sha-256"}},
@@ -170,6 +185,16 @@ def run(tier, seed):
             r = run_worker(tmp, ops_file, [i], os.path.join(tmp, f"fresh{i}"))
             ref[i] = r.get(str(i), [r])[0]
             ck.count("fresh", (i, json.dumps(ops[i], sort_keys=True)), nontrivial="exception" not in ref[i], sample={"op": ops[i]["kind"]})
+        # the same operation in fresh interpreters under other string-hash seeds and another working directory
+        for i in range(n):
+            for hs in (["1", "2", "random"] if ck.deep or ops[i]["kind"] in ("cache_env", "parse") else ["1"]):
+                r = run_worker(tmp, ops_file, [i], os.path.join(tmp, f"fresh{i}_{hs}"), seed=hs, cwd=tempfile.mkdtemp(prefix="cwd", dir=tmp))
+                got = r.get(str(i), [r])[0]
+                ck.count("fresh-seed", (i, hs), nontrivial=True, sample={"op": ops[i]["kind"], "PYTHONHASHSEED": hs})
+                if got != ref[i]:
+                    failing.append({"input": {"operation": ops[i], "PYTHONHASHSEED": hs},
+                                    "observed": f"operation ({ops[i]['kind']}) gives {short(got)} under PYTHONHASHSEED={hs} but {short(ref[i])} under PYTHONHASHSEED=0",
+                                    "expected": "identical output files"})
         # JSON and YAML renderings of the same description
         for i, op in enumerate(ops):
             if op["kind"] == "create" and op["input"].endswith(".json") and "designed" not in op:
